@@ -203,6 +203,9 @@ func opCompose(args []string) string {
 		pos := 0
 		for i := 0; i < n-1; i++ {
 			k := len([]rune(decoded[i]))
+			if c == 0 && pos+k < len(rs) && rs[pos+k] == '\r' && !strings.HasPrefix(string(rs[pos+k:]), decoded[i+1]) {
+				k++ // the decoder stripped this part's trailing CR (C08's ambiguous case): the part itself holds it
+			}
 			if pos+k >= len(rs) {
 				break
 			}
